@@ -63,9 +63,10 @@ Definition cast_int64 (x : Qc) : Z :=
   let t := Qctrunc x in if (INT64_MIN <=? t) && (t <? 2 ^ 63) then t else INT64_MIN.
 
 (* method='gaussian': [draw] = rng.normal(loc=img, scale=np.sqrt(img)).
-   [upper_guard = false] is the code as it is in /repo (negative guard only, fix 6d91c01);
-   [upper_guard = true] is the code with proposed_fixes/c18-gaussian-upper-bound.patch applied
-   (the same bound as the Poisson path).  np.floor of an integer array changes nothing. *)
+   [upper_guard = true] is the code as it is in /repo: negative guard (fix 6d91c01) and the same upper
+   bound as the Poisson path (fix a1d0f6b).  [upper_guard = false] is the code before a1d0f6b, kept
+   to state why the guard is needed (Properties/C18.v, C18_shot_gaussian_without_guard_overflows).
+   np.floor of an integer array changes nothing. *)
 Definition shot_gaussian (upper_guard : bool) (img draw : arr QS) : shot_result :=
   if has_neg img then ShotErr ValueError MsgNegative
   else if upper_guard && has_big img then ShotErr ValueError MsgTooLarge
